@@ -183,6 +183,9 @@ def walk_trees(
     """
     # This could be fairly easily generalized to >2 trees if we find a use
     # case.
+    if paths is not None:
+        # a directory may be named with a trailing slash ("src/")
+        paths = [p.rstrip(b"/") for p in paths]
     entry1 = TreeEntry(b"", stat.S_IFDIR, tree1_id) if tree1_id else None
     entry2 = TreeEntry(b"", stat.S_IFDIR, tree2_id) if tree2_id else None
     todo: list[tuple[TreeEntry | None, TreeEntry | None]] = [(entry1, entry2)]
